@@ -33,6 +33,7 @@ def dispatch (line : String) : String :=
       | "mask" => MaskDriver.handle args
       | "gym" => AdaptersDriver.handleGym args
       | "ospiel" => AdaptersDriver.handleOS args
+      | "ospielx" => AdaptersDriver.handleOSX args
       | "twin" => TwinDriver.handleTwin args
       | "ostwin" => TwinDriver.handleOSTwin args
       | "gymabs" => TwinDriver.handleGymABS args
